@@ -8,7 +8,7 @@ property's own predicate is evaluated on the real code (no reference model knows
 from __future__ import annotations
 
 from . import defs, impl, refimpl
-from .structprops import has_eof, small_unit_bits, union_dump_incomplete
+from .structprops import union_anon_nested, has_eof, small_unit_bits, union_dump_incomplete
 
 
 def with_nested(rnd, g: defs.Gen, tree, kind="struct"):
@@ -122,6 +122,8 @@ def sigs_mixed(tree2, top_align, ptr, endian):
         out.append("F23")
     if has_eof(tree2):
         out.append("F30")
+    if union_anon_nested(tree2):
+        out.append("F44")
     return out
 
 
